@@ -202,7 +202,7 @@ def r20_2(ctx, prog, crate):
                     ctx.check(ok, "R20.2", [b.path, c.callee.rsplit("::", 1)[-1] if not c.is_fn_trait_call else "run_bench", desc],
                               "an is_last argument of `%s` in `%s` is `%s`: expected `index == len - 1` of the collection iterated here (or the caller's is_last)"
                               % (c.callee if not c.is_fn_trait_call else "run_bench", b.path, desc), c.line(), detail={"site": b.path, "is_last": desc})
-    ctx.anchor("R20.2", "is_last arguments", n, 7)
+    ctx.anchor("R20.2", "is_last arguments", n, 4)
 
 
 def _strip_sites(e):
